@@ -312,7 +312,7 @@ def well_formed_rows(text):
         if line == '' or line.startswith('#') or line == dp.HEADER:
             continue
         cols = line.split('\t')
-        if len(cols) == 15 and cols[0].isdigit() and cols[1].isdigit() and cols[14].isdigit():
+        if len(cols) >= 15 and cols[0].isdigit() and cols[1].isdigit() and cols[-1].isdigit():
             out.append('\t'.join(cols[:-1]))
     return sorted(out)
 
@@ -365,7 +365,8 @@ def torn_tail_chains(ck, n_scen):
             n_rows = sum(len(ms) for ms in outs1[last[1]][last[2] - 1])
             text = ob1.files[0]
             block = text.split('\n')[:-1][-n_rows:]
-            if not all(l.split('\t')[0] == str(last[2]) and l.split('\t')[5:14] == probe1.runs[last[1]]['cols']
+            if not all(l.split('\t')[0] == str(last[2]) and
+                       '\t'.join(l.split('\t')[5:-1]) == '\t'.join(probe1.runs[last[1]]['cols'])
                        for l in block):
                 continue
             spec1m = dict(spec1, order=[i for i in (ob1.order or []) if i is not None])
@@ -562,7 +563,7 @@ def parallel_interrupt_slice(ck, n):
         if interrupted is not None:
             run = probe.runs[interrupted[0]]
             leaked = [r for r in c06.dp_rows(ob1.files[0], False)
-                      if r[0] == str(interrupted[1]) and r[5:14] == run['cols']]
+                      if r[0] == str(interrupted[1]) and '\t'.join(r[5:-1]) == '\t'.join(run['cols'])]
             if leaked:
                 ck.oracle_fail('interrupted_not_recorded', inp, {'invocation': list(interrupted), 'rows': leaked[:3]}, sig)
             restarted = [s for s in ob2.starts if s[0] == 'r' and (s[1], s[2]) == interrupted]
